@@ -56,6 +56,7 @@ import time
 import types
 import warnings
 import sys
+import re
 from xdoctest import global_state
 
 
@@ -439,7 +440,7 @@ def _convert_to_test_module(enabled_examples):
                     # import ubelt as ub
                     # print('line = {}'.format(ub.repr2(line, nl=1)))
                     # stripped = static._strip_hashtag_comments_and_newlines(line)
-                    if ' import *' in line:
+                    if re.match(r'\s*from\s+[\w.]+\s+import\s+\*', line):
                         continue
                     new_exec_lines.append(line)
                 part.exec_lines = new_exec_lines
